@@ -1094,6 +1094,39 @@ func (fr *Frame) evalCall(x *ECall, env *evalEnv) (Value, error) {
 			return nil, fmt.Errorf("fresh() needs an old state")
 		}
 		return boolV(and(refLe(env.old.alloc, ref), refLt(ref, env.st.alloc))), nil
+	case "has":
+		// has(m, k): key k is present in map m
+		mv, err := arg(0)
+		if err != nil {
+			return nil, err
+		}
+		kv, err := arg(1)
+		if err != nil {
+			return nil, err
+		}
+		ms, ok := mv.(*Sc)
+		if !ok || ms.Ty == nil {
+			return nil, fmt.Errorf("has: not a map")
+		}
+		mt, ok := ms.Ty.Underlying().(*types.Map)
+		if !ok {
+			return nil, fmt.Errorf("has: not a map")
+		}
+		hasC, hs, _, err := mapComps(mt)
+		if err != nil {
+			return nil, err
+		}
+		var kt string
+		switch k := kv.(type) {
+		case *Sc:
+			kt = k.T
+		case *UInt:
+			kl, _ := leavesOf(mt.Key())
+			kt = bvLit(k.V, kl[0].w)
+		default:
+			return nil, fmt.Errorf("has: bad key")
+		}
+		return boolV(and(not(eq(ms.T, refLit(0))), sel(env.readAt(hasC, hs, ms.T), kt))), nil
 	case "loopfresh":
 		// loopfresh(x): x was allocated after the enclosing loop was entered
 		v, err := arg(0)
